@@ -87,6 +87,7 @@ fn spec_point(d: &[u8], n: usize, want: usize) -> Option<(i16, i16, bool)> {
 
 // @bound SimpleGlyph on 28 symbolic bytes, 1 contour, <= 3 points, no instructions: points() equals the spec decoding of flags (incl. REPEAT), short/same/long x and y deltas with wrapping accumulation; read_points_fast agrees; unwind 8
 // @c20
+// @c01
 // @timeout 1200
 #[cfg_attr(kani, kani::proof)]
 #[cfg_attr(kani, kani::unwind(8))]
@@ -134,6 +135,7 @@ pub fn c09_simple_glyph_points_match_spec() {
 
 // @bound SimpleGlyph on 24 ARBITRARY symbolic bytes: num_points / points() (first 3) / has_overlapping_contours / read_points_fast with matching buffers (<= 4 points) never panic; unwind 8
 // @c20
+// @c01
 // @timeout 1200
 #[cfg_attr(kani, kani::proof)]
 #[cfg_attr(kani, kani::unwind(8))]
